@@ -226,7 +226,7 @@ pub fn check(ctx: &mut Ctx) -> i32 {
             acc.count("regress_passed", 1);
         }
     }
-    let n = ctx.by(3000, 30_000);
+    let n = ctx.by(3000, 400_000);
     if let Some(f) = explore(ctx, &acc, "quiet-loud-pairs", "quiet", &strategy, n, ctx.workers, run_case) {
         let mut fi = f.fail.clone();
         fi.detail = json!({"note": "replay prints the same message"});
